@@ -40,8 +40,9 @@ ASSUMPTIONS = [
     'Unicode tables: Text.isSpace (29 code points) and Text.isWord (range table) are those of CPython 3.12 / Unicode 15.0; '
     'compared with re \\s, str.strip() and re \\w for every code point on every run (stream charclass, exhaustive)',
     'Lines contain no "\\n" (theorem C10.splitLines_no_newline): "." / "$" subtleties of re about a final newline never arise',
-    'Scan.classify instantiated with ExprParse.parseExpr is compared on lines without non-ASCII word characters only (ExprScan models '
-    'the ASCII part of \\w / \\d; Text.isWord / Scan.shape are exact for all of Unicode and are compared on every line)',
+    'Scan.classify instantiated with ExprParse.parseExpr is compared on every line, non-ASCII word characters and digits included '
+    '(ExprScan has the Unicode \\w / \\d: Text.isWord, Rx.digitRanges with the digit values; c06x stream rx-classes compares \\d with re '
+    'for every code point)',
     'classify is parametric in parseExpr; the hypothesis SkipsLeadingBlanks of leading_ws_irrelevant is DISCHARGED for the expression parser '
     'model ExprParse.parseExpr (C10.parseExpr_skips_leading_blanks), as are trailing blanks for every statement kind '
     '(C10.trailing_ws_irrelevant; exclusion: a line ending in "=") and the stretching of a blank outside string literals / bracketed '
@@ -1100,7 +1101,7 @@ CLASSIFY_BASE = [
     'f(x)', 'a + b', "'str'", '(a)', '?', 'a b', '', 'x', 'if', 'else', 'function', 'include', 'jumpif', 'for', 'a.b = 1', '[a b] = 1', 'a : b',
 ]
 _R_WORD = re.compile(r'\w')
-MUT_CHARS = [' ', ':', '=', '(', ')', "'", ',', '.', 'x', '\\', '#', '<', '>', '\t', '1', '\xe9', '\u3000', '\r']
+MUT_CHARS = [' ', ':', '=', '(', ')', "'", ',', '.', 'x', '\\', '#', '<', '>', '\t', '1', '\xe9', '\u3000', '\r', '\u0663', '\U0001d7d8', '\u00b2']
 
 
 def classify_cases(ctx, rng):
@@ -1165,15 +1166,14 @@ def stream_classify(ctx):
         st.case(line, nontrivial=model.get('kind') != 'expr', tags=['kind:' + str(model.get('kind')), 'src:' + src, 'out:' + out[0]])
         ctx.compare('classify', line, jsonable(shape), model)
         # Scan.classify instantiated with ExprParse.parseExpr: the Line with parsed expressions / the re-based error column
-        # (ExprScan models the ASCII part of \w and \d only: lines with a non-ASCII word character are outside its domain)
+        # (ExprScan has the Unicode \w and \d: lines with non-ASCII word characters / digits are compared like all others)
         if any(ord(ch) > 127 and _R_WORD.match(ch) for ch in line):
-            st.hist['full:skipped-nonascii-word'] = st.hist.get('full:skipped-nonascii-word', 0) + 1
-        else:
-            try:
-                full_r = dict(full, expr=round_numbers(full['expr'])) if 'expr' in full else full
-            except (OverflowError, ZeroDivisionError):
-                full_r = full
-            ctx.compare('classify', {'line': line, 'what': 'Scan.classify ExprParse.parseExpr'}, jsonable(expected_line(line, shape)), full_r)
+            st.hist['full:nonascii-word'] = st.hist.get('full:nonascii-word', 0) + 1
+        try:
+            full_r = dict(full, expr=round_numbers(full['expr'])) if 'expr' in full else full
+        except (OverflowError, ZeroDivisionError):
+            full_r = full
+        ctx.compare('classify', {'line': line, 'what': 'Scan.classify ExprParse.parseExpr'}, jsonable(expected_line(line, shape)), full_r)
         if 'kind' in model:
             ctx.compare('classify', {'line': line, 'what': 'parse_script([line]) outcome'}, jsonable(out),
                         jsonable(expected_single_line_outcome(line, model)))
